@@ -367,9 +367,12 @@ def save_params(args):
             vals[1] = os.path.abspath(vals[1])
             args.read_group = ":".join(vals)
 
-    pickler = pickle.Pickler(open(args.param_file, "wb"),  -1)
-    pickler.dump(args)
-    pass
+    # the file is rewritten by every resumed run: never leave it truncated
+    tmp_param_file = args.param_file + ".tmp"
+    with open(tmp_param_file, "wb") as param_handle:
+        pickler = pickle.Pickler(param_handle,  -1)
+        pickler.dump(args)
+    os.replace(tmp_param_file, args.param_file)
 
 
 # Check user's params
